@@ -696,6 +696,8 @@ class Engine:
             if isinstance(recv, ast.Name) and recv.id in ("np", "numpy", "math"):
                 raise OutOfSubset(f"call {ast.unparse(f)}")
             obj = self.ev(recv, st, spec, ctx)
+            if isinstance(obj, SArr) and f.attr == "copy" and not e.args and not e.keywords:
+                return obj          # arrays are values here: a copy is the same value (and a distinct object)
             if isinstance(obj, SArr) and f.attr == "fill" and not spec and isinstance(recv, ast.Name):
                 v = to_num(self.ev(e.args[0], st, spec, ctx))
                 if obj.dt is not None:
@@ -1607,9 +1609,11 @@ class Engine:
             elif isinstance(seq, SView):
                 hi = st.vars[seq.base].shape[1 - seq.axis]
                 seq_name = None
-            elif isinstance(seq, SArr) and seq.ndim == 2 and isinstance(seqe, ast.Name):
+            elif isinstance(seq, SArr) and seq.ndim == 2 and (isinstance(seqe, ast.Name) or (
+                    isinstance(seqe, ast.Attribute) and self.c.attrs.get(unparse(seqe), "").isidentifier()
+                    and self.c.attrs[unparse(seqe)] in st.vars)):
                 hi = seq.shape[0]           # iterating a matrix yields its rows (views)
-                seq_name = seqe.id
+                seq_name = seqe.id if isinstance(seqe, ast.Name) else self.c.attrs[unparse(seqe)]
             else:
                 raise OutOfSubset("iteration over this value")
         top = z3.If(lo <= hi, hi, lo)
@@ -1798,11 +1802,24 @@ class Engine:
         body = strip_doc(fn.body)
         if self.c.block is not None:
             # Hoare triple on a contiguous block of the function's statements: inputs are the contract's params
-            keys = [self.fs.after_key.get(id(s_)) for s_ in body]
             k0, k1 = "after " + self.c.block[0], "after " + self.c.block[1]
-            if k0 not in keys or k1 not in keys or keys.index(k0) > keys.index(k1):
-                raise ContractError(f"{self.fs.qualname}: block {self.c.block} not found among the top-level statements")
-            body = body[keys.index(k0):keys.index(k1) + 1]
+
+            def find(stmts):       # the statement list (at any nesting depth) that contains the block
+                keys = [self.fs.after_key.get(id(s_)) for s_ in stmts]
+                if k0 in keys and k1 in keys and keys.index(k0) <= keys.index(k1):
+                    return stmts[keys.index(k0):keys.index(k1) + 1]
+                for s_ in stmts:
+                    for fld in ("body", "orelse", "finalbody"):
+                        sub = getattr(s_, fld, None)
+                        if isinstance(sub, list) and sub and isinstance(sub[0], ast.stmt):
+                            got = find(sub)
+                            if got is not None:
+                                return got
+                return None
+            body = find(body)
+            if body is None:
+                raise ContractError(f"{self.fs.qualname}: block {self.c.block} not found as a contiguous statement sequence")
+            self.block_mode = True
             for a, t in self.c.params.items():
                 env[a] = self.mk_param(a.replace(".", "_"), t)
             args = list(self.c.params)
@@ -1836,6 +1853,11 @@ class Engine:
         rets = list(r["ret"])
         for nn in self.flat(r["normal"]):
             rets.append((nn, None))
+        if getattr(self, "block_mode", False):
+            # a block nested in a loop may also be left by `break` / `continue`: the Hoare triple covers those exits too
+            for nn in list(r["brk"]) + list(r["cont"]):
+                if nn is not None:
+                    rets.append((nn, None))
         for n, (rs, rv) in enumerate(rets):
             # vacuity: the hypotheses collected on the way to this return must not be contradictory
             self.emit("cover", f"ret{n}", z3.BoolVal(True), rs.guard, frozenset(), expect="sat")
